@@ -73,6 +73,12 @@ impl PutQuery {
             }
         }
 
+        if self.inflight_requests.is_empty() {
+            // None of the nodes gave us a write token, so nothing was sent
+            // and this query would never be considered started nor done.
+            Err(PutQueryError::NoClosestNodes)?;
+        }
+
         Ok(())
     }
 
